@@ -52,6 +52,40 @@ _CONDITIONAL_BODIES = tuple(
 )
 
 
+def _conditional_walrus_targets(node: ast.AST) -> Set[ast.Name]:
+    """Targets of the := expressions in node that are only evaluated under some condition.
+
+    These are the operands of and/or after the first, the branches of a conditional expression,
+    the comparators of a chained comparison after the first, everything in a comprehension that
+    is not the iterable of its first for clause, and the body of a lambda (which in addition binds
+    the name in the scope of the lambda only)."""
+    conditional = []
+    for child in ast.walk(node):
+        if isinstance(child, ast.BoolOp):
+            conditional.extend(child.values[1:])
+        elif isinstance(child, ast.IfExp):
+            conditional.extend((child.body, child.orelse))
+        elif isinstance(child, ast.Compare):
+            conditional.extend(child.comparators[1:])
+        elif isinstance(child, ast.Lambda):
+            conditional.append(child.body)
+        elif isinstance(child, (ast.ListComp, ast.SetComp, ast.GeneratorExp, ast.DictComp)):
+            conditional.extend(
+                grandchild
+                for grandchild in ast.iter_child_nodes(child)
+                if grandchild is not child.generators[0]
+            )
+            conditional.extend(child.generators[0].ifs)
+            conditional.extend(child.generators[1:])
+
+    return {
+        namedexpr.target
+        for child in conditional
+        for namedexpr in ast.walk(child)
+        if isinstance(namedexpr, ast.NamedExpr)
+    }
+
+
 def code_dependencies_outputs(code: Sequence[ast.AST]) -> Tuple[Set[str], Set[str], Set[str]]:
     """Get required and created names in code.
 
@@ -127,6 +161,8 @@ def code_dependencies_outputs(code: Sequence[ast.AST]) -> Tuple[Set[str], Set[st
                     if isinstance(grandchild, ast.Name) and grandchild.id in comp_created:
                         generator_internal_names.add(grandchild)
 
+            conditional_walrus_targets = _conditional_walrus_targets(node)
+
             if isinstance(node, ast.AugAssign):
                 node_needed.update(n.id for n in parsing.assignment_targets(node))
 
@@ -139,6 +175,8 @@ def code_dependencies_outputs(code: Sequence[ast.AST]) -> Tuple[Set[str], Set[st
                 if child.id not in node_needed and child not in generator_internal_names:
                     if isinstance(child.ctx, ast.Load):
                         node_needed.add(child.id)
+                    elif child in conditional_walrus_targets:
+                        maybe_created_names.add(child.id)
                     elif isinstance(child.ctx, ast.Store):
                         node_created.add(child.id)
                     else:
